@@ -155,37 +155,57 @@ def deleg_rule(ctx, res):
                sample={"entry": root[5:], "options": "Options::compact()"})
         res.ob(a[3] == Conc(0), "C08.deleg", "C08.deleg/%s/indent" % root[5:], "%s starts at indentation %r instead of 0" % (root[5:], a[3]))
         res.ob(not o.events, "C08.deleg", "C08.deleg/%s/extra-output" % root[5:], "%s writes something before delegating: %r" % (root[5:], o.events))
-    # to_string / From<Value> for String: unconditional delegation to Display
-    for root, cut_rx, what in (("root_string_from_value", r"^<json_syntax::Value as std::string::ToString>::to_string$|^<T as std::string::ToString>::to_string$|ToString>::to_string$", "to_string"),):
+    # to_string / From<Value> for String: whatever chain of wrappers they go through (ToString's blanket impl is replaced by
+    # "call Display::fmt of the receiver with a fresh formatter"), the printer must be reached exactly once, with the value
+    # that was given, Options::compact() and indentation 0, and nothing else written
+    from ..absint import CallThen
+
+    def to_string(it_, st_, inst_, args_, call_):
+        targ = inst_.get("args", [None])[0]
+        t = P.types[targ] if isinstance(targ, int) else None
+        disp = [i_ for i_ in P.inst if t is not None and i_["name"] == "<%s as std::fmt::Display>::fmt" % t["s"] and i_.get("has_mir")]
+        if len(disp) != 1:
+            raise Undecided("to_string of %s: its Display impl is not in the program" % (t["s"] if t else targ))
+        fcell = st_.new_obj(Top(None, "the-formatter"))
+        return CallThen(disp[0]["id"], [args_[0], Ref(("H", fcell.id), ())], lambda it2, st2, rv: Top(dispatch_ret(it2, call_), "the-string"))
+
+    def dispatch_ret(it_, call_):
+        from ..summ import ret_ty
+        return ret_ty(it_, call_)
+
+    for root in ("root_string_from_value", "root_value_to_string"):
+        if root not in P.roots:
+            res.violation("C08.deleg", "C08.deleg/missing-root/" + root, "harness root %s missing" % root)
+            continue
         it = tables.mk(P)
-        rx = re.compile(cut_rx)
-        it.cuts.append((lambda inst, rx=rx: bool(rx.search(inst["name"])) and "json_syntax::Value" in inst["name"], "TOSTRING"))
+        it.cuts.append((lambda inst: bool(PRINT_CORE.search(inst["name"])), "PRINT"))
+        it.summaries.insert(0, (lambda inst: bool(re.search(r"as std::string::ToString>::to_string$", inst["name"])), to_string))
         st = State()
         rinst = P.inst[P.roots[root]]
-        arg = Top(rinst["locals"][1], "the-value")
+        byref = P.types[rinst["locals"][1]]["k"] == "ref"
+        val = Top(P.types[rinst["locals"][1]]["to"] if byref else rinst["locals"][1], "the-value")
+        arg = Ref(("H", st.new_obj(val).id), ()) if byref else val
         it.push_frame(st, rinst["id"], [arg], None, None)
         try:
             outs = it.run(st)
         except Undecided as e:
             res.violation("C08.deleg", "C08.deleg/undecided/" + root, "undecided: %s" % e)
             continue
-        ok = len(outs) == 1 and outs[0].outcome[0] == "cut"
-        res.ob(ok, "C08.deleg", "C08.deleg/%s/shape" % root[5:], "String::from(Value) does not unconditionally delegate to %s (%d paths: %s)" % (what, len(outs), [o.outcome[0] for o in outs]),
-               sample={"entry": root[5:], "delegates_to": what})
-        if ok:
-            o = outs[0]
-            a0 = o.outcome[2][0]
-            same = isinstance(a0, Ref) and it.read_path(o, a0.base, a0.proj) == arg
-            res.ob(same, "C08.deleg", "C08.deleg/%s/arg" % root[5:], "String::from(Value) converts something else than its argument")
-            # resume: the result must be returned unchanged
-            tok = Top(None, "the-string")
-            it.resume_cut(o, tok)
-            fin = it.run(o)
-            res.ob(len(fin) == 1 and fin[0].outcome[0] == "return" and fin[0].outcome[1] == tok, "C08.deleg", "C08.deleg/%s/result" % root[5:],
-                   "String::from(Value) does not return the result of to_string unchanged")
-    # to_string -> Display::fmt (std's blanket impl): call-graph check
-    ts = P.roots.get("root_value_to_string")
-    disp = [i for i in P.inst if i["name"] == "<json_syntax::Value as std::fmt::Display>::fmt"]
-    ok = ts is not None and disp and disp[0]["id"] in P.reachable([ts])
-    res.ob(ok, "C08.deleg", "C08.deleg/to_string/display", "Value::to_string does not reach <Value as Display>::fmt",
-           sample={"entry": "value_to_string", "reaches": "<Value as Display>::fmt"})
+        cuts = [o for o in outs if o.outcome[0] == "cut"]
+        ok = len(cuts) == 1 and len(outs) == 1
+        res.ob(ok, "C08.deleg", "C08.deleg/%s/shape" % root[5:], "%s does not reach the printer exactly once on a single path (%s)" % (root[5:], [o.outcome[0] for o in outs]),
+               sample={"entry": root[5:], "reaches": "Print::fmt_with once"})
+        if not ok:
+            continue
+        o = cuts[0]
+        a = o.outcome[2]
+        v0 = a[0]
+        for _ in range(3):
+            if isinstance(v0, Ref):
+                v0 = it.read_path(o, v0.base, v0.proj)
+        res.ob(v0 == val, "C08.deleg", "C08.deleg/%s/arg" % root[5:], "%s prints something else than the value it was given (%r)" % (root[5:], v0))
+        opt = it.read_path(o, a[2].base, a[2].proj) if isinstance(a[2], Ref) else a[2]
+        res.ob(opt == compact_val, "C08.deleg", "C08.deleg/%s/options" % root[5:], "%s prints with %r instead of Options::compact()" % (root[5:], opt),
+               sample={"entry": root[5:], "options": "Options::compact()"})
+        res.ob(a[3] == Conc(0), "C08.deleg", "C08.deleg/%s/indent" % root[5:], "%s starts at indentation %r instead of 0" % (root[5:], a[3]))
+        res.ob(not [e for e in o.events if e[0] == "w"], "C08.deleg", "C08.deleg/%s/extra-output" % root[5:], "%s writes something before delegating: %r" % (root[5:], o.events))
